@@ -210,5 +210,33 @@ def units_linkname():
     return out
 
 
+def units_more():
+    out = []
+    out.append(Unit("dot import", "\tfmt.Println(DotFn@(2), DotVar@, DotT@{N: 3}.Twice())\n",
+                    decls="import . \"%s/lib/b.c\"\n" % MOD,
+                    pkgs={"bc": "var DotVar@ = 7\n\ntype DotT@ struct{ N int }\n\nfunc (d DotT@) Twice() int { return d.N * 2 }\n\nfunc DotFn@(n int) int { return n + DotVar@ }\n"}))
+    out.append(Unit("local names shadowing package names", "\ta := a.Shadow@{V: 1}\n\tbc := a.V + 1\n\tstrings := []string{\"x\"}\n\tfmt.Println(a.V, bc, len(strings), shadowUse@())\n",
+                    decls="func shadowUse@() int {\n\ta := 5\n\treturn a\n}\n",
+                    pkgs={"a": "type Shadow@ struct{ V int }\n"}))
+    out.append(Unit("unicode identifiers", "\tv := a.Ünï@{Größe: 2}\n\tfmt.Println(v.Größe, v.Ärger(), a.Ωmega@, a.Δelta@(3), a.Klein@())\n",
+                    pkgs={"a": "type Ünï@ struct{ Größe int }\n\nfunc (u Ünï@) Ärger() int { return u.Größe * 3 }\n\nvar Ωmega@ = 9\n\nfunc Δelta@(n int) int { return n - ωklein@ }\n\nvar ωklein@ = 1\n\nfunc Klein@() int { return ωklein@ }\n"}))
+    out.append(Unit("generic alias and alias to instantiation", "\tvar x a.GA@[int] = bc.GS@[int]{V: 4}\n\tvar y a.GI@ = bc.GS@[string]{V: \"s\"}\n\tfmt.Println(x.V, y.V, x.Get(), y.Get())\n",
+                    pkgs={"a": "type GA@[T any] = bc.GS@[T]\n\ntype GI@ = bc.GS@[string]\n", "bc": "type GS@[T any] struct{ V T }\n\nfunc (g GS@[T]) Get() T { return g.V }\n"}))
+    out.append(Unit("range over func iterators", "\tsum := 0\n\tfor v := range a.Count@(4) {\n\t\tsum += v\n\t}\n\tfor k, v := range a.Pairs@() {\n\t\tsum += len(k) + v\n\t}\n\tfmt.Println(sum)\n",
+                    pkgs={"a": "func Count@(n int) func(yield func(int) bool) {\n\treturn func(yield func(int) bool) {\n\t\tfor i := 0; i < n; i++ {\n\t\t\tif !yield(i) {\n\t\t\t\treturn\n\t\t\t}\n\t\t}\n\t}\n}\n\n"
+                               "func Pairs@() func(yield func(string, int) bool) {\n\treturn func(yield func(string, int) bool) {\n\t\t_ = yield(\"k1\", 1) && yield(\"key2\", 2)\n\t}\n}\n"}))
+    out.append(Unit("embedded interface in struct", "\tw := a.Wrap@{Speaker@: a.Dog@{}, Tag: \"t\"}\n\tfmt.Println(w.Speak(), w.Tag, a.Loud@(w))\n",
+                    pkgs={"a": "type Speaker@ interface{ Speak() string }\n\ntype Dog@ struct{}\n\nfunc (Dog@) Speak() string { return \"woof\" }\n\ntype Wrap@ struct {\n\tSpeaker@\n\tTag string\n}\n\nfunc Loud@(s Speaker@) string { return s.Speak() + \"!\" }\n"}))
+    out.append(Unit("embed directive", "\tfmt.Println(len(embedStr@), string(embedBytes@[:3]), func() int { b, _ := embedFS@.ReadFile(\"embeddata@.txt\"); return len(b) }())\n",
+                    decls="import \"embed\"\n\n//go:embed embeddata@.txt\nvar embedStr@ string\n\n//go:embed embeddata@.txt\nvar embedBytes@ []byte\n\n//go:embed embeddata@.txt\nvar embedFS@ embed.FS\n",
+                    files={"embeddata@.txt": "embedded file contents @\n"}))
+    out.append(Unit("mutually recursive types across packages", "\tn := &a.Tree@{Val: 1, Kids: []*a.Tree@{{Val: 2}, {Val: 3, Meta: &bc.Meta@{Note: \"m\"}}}}\n\tfmt.Println(n.Sum(), n.Kids[1].Meta.Note)\n",
+                    pkgs={"a": "type Tree@ struct {\n\tVal  int\n\tKids []*Tree@\n\tMeta *bc.Meta@\n}\n\nfunc (t *Tree@) Sum() int {\n\ts := t.Val\n\tfor _, k := range t.Kids {\n\t\ts += k.Sum()\n\t}\n\treturn s\n}\n",
+                          "bc": "type Meta@ struct {\n\tNote string\n\tNext *Meta@\n}\n"}))
+    out.append(Unit("same names in several packages and builtins", "\tfmt.Println(a.Helper@(1), bc.Helper@(1), differs.Helper@(1), min(a.Helper@(2), 3), max(1, bc.Helper@(0)))\n",
+                    pkgs={"a": "func Helper@(n int) int { return n + 1 }\n", "bc": "func Helper@(n int) int { return n + 2 }\n", "nm": "func Helper@(n int) int { return n + 3 }\n"}))
+    return out
+
+
 def all_units():
-    return (units_structs() + units_alias() + units_generics() + units_interfaces() + units_control() + units_imports() + units_asm() + units_asm_qualified() + units_linkname())
+    return (units_structs() + units_alias() + units_generics() + units_interfaces() + units_control() + units_imports() + units_asm() + units_asm_qualified() + units_linkname() + units_more())
